@@ -83,7 +83,14 @@ STMT = [
     ('ClassTypeParam', 'class C[T:{0}]:pass'), ('TypeParamDefault', 'def f[T={0},*U={1},**V={2}]():pass'),
     ('ExprYieldCtx', 'def f():\n {0}'), ('AssignYieldCtx', 'def f():\n x={0}'), ('AugYieldCtx', 'def f():\n x+={0}'),
     ('AnnYieldCtx', 'def f():\n x:{0}={1}'),
-    ('TwoStmts', '{0};{1}'), ('ClassBody', 'class C:\n x={0}\n def f(self):return {1}'),
+    ('TwoStmts', '{0};{1}'),
+    ('IfAfterSimple', 'def f():\n y={0}\n if y:pass'), ('ForAfterSimple', 'def f():\n y={0}\n for z in y:pass'), ('WhileAfterSimple', 'def f():\n y={0}\n while y:pass'),
+    ('TryAfterSimple', 'def f():\n y={0}\n try:pass\n finally:pass'), ('WithAfterSimple', 'def f():\n y={0}\n with y:pass'),
+    ('DefAfterSimple', 'def f():\n y={0}\n def g():pass'), ('ClassAfterSimple', 'def f():\n y={0}\n class G:pass'),
+    ('MatchAfterSimple', 'def f():\n y={0}\n match y:\n  case _:pass'), ('TryStarAfterSimple', 'def f():\n y={0}\n try:pass\n except* E:pass'),
+    ('AsyncAfterSimple', 'async def f():\n y={0}\n async with y:pass\n async for z in y:pass'),
+    ('MatchInIf', 'if a:\n y={0}\n match y:\n  case 1:pass\n  case _:z=1'), ('MatchInClass', 'class C:\n y={0}\n match y:\n  case _:pass'),
+    ('SimpleAfterMatch', 'def f():\n match {0}:\n  case _:pass\n y=1'), ('ClassBody', 'class C:\n x={0}\n def f(self):return {1}'),
 ]
 STMT_D = dict(STMT)
 
